@@ -746,3 +746,248 @@ Print Assumptions C11_parser_source_recognised.
 Example C11_model_parser_is_source_nonvacuous :
   gen_parse parser_program gen_grammar C11.ex_oracles (print_min gen_grammar dec ex_fmt_float ex_tree) = Some (ROk ex_tree).
 Proof. rewrite gen_parse_is_parse. rewrite (proj2 C11_example_roundtrip). reflexivity. Qed.
+
+(* ------------------------------------------------------------------------------------------------------------------
+   10. CAPSTONES: the theorems of 2, 4, 5, 7 restated over the REGENERATED front end only (Bridge/BrCapstoneC11.v composes
+       each property theorem with C11_model_parser_is_source and C12_model_lexer_is_source; neither Parser.parse nor
+       Lexer.lex occurs in the statements below).
+         gen_parse parser_program g o ts        the interpretation of parser/parser.go as regenerated into gen/GenParser.v
+                                                (Some r: the interpreter finished with parser result r),
+         source_parse_text ul ud us g o txt     parser.Parse on a text: the interpretation of the regenerated lexer
+                                                (gen_lex .. lexer_funs, gen/GenLexer.v), then gen_parse on its tokens,
+         source_text_positions ul ud us txt     the locations the regenerated lexer gives to the tokens of txt,
+         gen_grammar                            the regenerated operator / builtin tables.
+       Reference side: the printers, the renderer and its layouts, normalize / ref_parses, erase_loc, loc_at.
+       Carve-outs are those of the model-level theorems (printable, tree_textable, white / notin_spaced, sound_scope, plain). *)
+Require Import X.Lex.LexRules X.gen.GenLexer X.Bridge.BrLexerFns X.Bridge.BrCapstoneC11.
+
+Theorem C11_source_front_end_unfold : forall (uni_letter uni_digit uni_space : Z -> bool) (g : grammar) (o : oracles) (txt : list Z),
+  source_parse_text uni_letter uni_digit uni_space g o txt =
+    match gen_lex uni_letter uni_digit uni_space lexer_funs txt with
+    | GenOk ts => gen_parse parser_program g o ts
+    | GenErr l => Some (RErr l)
+    | GenOutOfFuel => Some RFuel
+    | GenCrash _ => None
+    end /\
+  source_text_positions uni_letter uni_digit uni_space txt =
+    match gen_lex uni_letter uni_digit uni_space lexer_funs txt with GenOk ts => map tloc ts | _ => [] end.
+Proof. exact (fun ul ud us g o txt => conj eq_refl eq_refl). Qed.
+
+(* 10a. token level: round trip for all trees and all redundant parentheses; printer over the DOCUMENTED tables *)
+Theorem C11_source_roundtrip : forall (o : oracles) (fmt_int : Z -> string) (fmt_float : PrimFloat.float -> string) (c : poracle) (t : expr),
+  printable gen_grammar fmt_int fmt_float o c t ->
+  gen_parse parser_program gen_grammar o (print_any gen_grammar fmt_int fmt_float c t) = Some (ROk t).
+Proof. exact src_roundtrip. Qed.
+
+Theorem C11_source_redundant_parentheses : forall (o : oracles) (fmt_int : Z -> string) (fmt_float : PrimFloat.float -> string) (c1 c2 : poracle) (t : expr),
+  printable gen_grammar fmt_int fmt_float o c1 t -> printable gen_grammar fmt_int fmt_float o c2 t ->
+  gen_parse parser_program gen_grammar o (print_any gen_grammar fmt_int fmt_float c1 t) =
+  gen_parse parser_program gen_grammar o (print_any gen_grammar fmt_int fmt_float c2 t).
+Proof. exact src_redundant_parentheses. Qed.
+
+Theorem C11_source_roundtrip_reference_printer : forall (o : oracles) (fmt_int : Z -> string) (fmt_float : PrimFloat.float -> string) (c : poracle) (t : expr),
+  printable (canon_grammar ref_grammar) fmt_int fmt_float o c t ->
+  gen_parse parser_program gen_grammar o (print_any (canon_grammar ref_grammar) fmt_int fmt_float c t) = Some (ROk t).
+Proof. exact src_roundtrip_reference_printer. Qed.
+
+Theorem C11_source_any_parentheses : forall (o : oracles) (fmt_int : Z -> string) (fmt_float : PrimFloat.float -> string) (c : poracle) (t : expr),
+  printable gen_grammar fmt_int fmt_float o no_extra t ->
+  (forall path x, node_at t path = Some x -> no_parens_allowed x = true -> c path = O) ->
+  gen_parse parser_program gen_grammar o (print_any gen_grammar fmt_int fmt_float c t) = Some (ROk t).
+Proof. exact src_any_parentheses. Qed.
+
+Theorem C11_source_parse_total : forall (g : grammar) (o : oracles) (ts : list token),
+  gen_parse parser_program g o ts <> None /\ gen_parse parser_program g o ts <> Some RFuel.
+Proof. exact src_parse_total. Qed.
+
+(* 10b. TEXT level: print (any redundant parentheses), lay out (any white layout), regenerated lexer, regenerated parser *)
+Theorem C11_source_text_roundtrip : forall (uni_letter uni_digit uni_space : Z -> bool) (o : oracles)
+    (fmt_int : Z -> string) (fmt_float : PrimFloat.float -> string) (c : poracle) (t : expr) (L : layout),
+  printable gen_grammar fmt_int fmt_float o c t ->
+  tree_textable uni_letter uni_digit uni_space fmt_int fmt_float t = true ->
+  white L (print_any gen_grammar fmt_int fmt_float c t) = true ->
+  exists t', source_parse_text uni_letter uni_digit uni_space gen_grammar o
+               (render uni_letter uni_digit uni_space L (print_any gen_grammar fmt_int fmt_float c t)) = Some (ROk t') /\
+             erase_loc t' = erase_loc t.
+Proof. exact src_text_roundtrip. Qed.
+
+Theorem C11_source_text_roundtrip_good_layout : forall (uni_letter uni_digit uni_space : Z -> bool) (o : oracles)
+    (fmt_int : Z -> string) (fmt_float : PrimFloat.float -> string) (c : poracle) (t : expr) (L : layout),
+  printable gen_grammar fmt_int fmt_float o c t ->
+  layout_good uni_letter uni_digit uni_space L (print_any gen_grammar fmt_int fmt_float c t) = true ->
+  exists t', source_parse_text uni_letter uni_digit uni_space gen_grammar o
+               (render uni_letter uni_digit uni_space L (print_any gen_grammar fmt_int fmt_float c t)) = Some (ROk t') /\
+             erase_loc t' = erase_loc t.
+Proof. exact src_text_roundtrip_good_layout. Qed.
+
+(* every token list that has a spelling, any good layout: the regenerated front end on the text = the regenerated parser
+   on the tokens, up to locations; and any spelling of a token sequence parses like the sequence it spells *)
+Theorem C11_source_text_tokens : forall (uni_letter uni_digit uni_space : Z -> bool) (g : grammar) (o : oracles) (L : layout) (toks : list token),
+  layout_good uni_letter uni_digit uni_space L toks = true ->
+  option_map erase_result (source_parse_text uni_letter uni_digit uni_space g o (render uni_letter uni_digit uni_space L toks)) =
+  option_map erase_result (gen_parse parser_program g o toks).
+Proof. exact src_text_tokens. Qed.
+
+Theorem C11_source_text_any_spelling : forall (uni_letter uni_digit uni_space : Z -> bool) (g : grammar) (o : oracles)
+    (items : list (list Z * xtok)) (trail : list Z),
+  layoutx_ok uni_letter uni_digit uni_space items trail = true ->
+  option_map erase_result (source_parse_text uni_letter uni_digit uni_space g o (layoutx items trail)) =
+  gen_parse parser_program g o (map (fun it => xtoken (snd it)) items ++ [mkTok noloc TkEOF ""])%list.
+Proof. exact src_text_any_spelling. Qed.
+
+(* node locations of the tree returned by the regenerated parser = positions the regenerated lexer gave to the anchor tokens *)
+Theorem C11_source_text_locations : forall (uni_letter uni_digit uni_space : Z -> bool) (o : oracles)
+    (fmt_int : Z -> string) (fmt_float : PrimFloat.float -> string) (c : poracle) (t : expr) (L : layout),
+  let toks := print_any gen_grammar fmt_int fmt_float c t in
+  printable gen_grammar fmt_int fmt_float o c t ->
+  tree_textable uni_letter uni_digit uni_space fmt_int fmt_float t = true ->
+  white L toks = true -> distinct_locs toks = true ->
+  exists t', source_parse_text uni_letter uni_digit uni_space gen_grammar o (render uni_letter uni_digit uni_space L toks) = Some (ROk t') /\
+    erase_loc t' = erase_loc t /\
+    forall path x, node_at t path = Some x -> Ast.loc_of x <> noloc ->
+      exists x', node_at t' path = Some x' /\
+        Ast.loc_of x' = loc_at toks (source_text_positions uni_letter uni_digit uni_space (render uni_letter uni_digit uni_space L toks)) (Ast.loc_of x).
+Proof. exact src_text_locations. Qed.
+
+Theorem C11_source_whitespace_irrelevant : forall (uni_letter uni_digit uni_space : Z -> bool) (o : oracles)
+    (fmt_int : Z -> string) (fmt_float : PrimFloat.float -> string) (c : poracle) (t : expr) (L1 L2 : layout),
+  printable gen_grammar fmt_int fmt_float o c t ->
+  tree_textable uni_letter uni_digit uni_space fmt_int fmt_float t = true ->
+  white L1 (print_any gen_grammar fmt_int fmt_float c t) = true ->
+  white L2 (print_any gen_grammar fmt_int fmt_float c t) = true ->
+  exists t1 t2,
+    source_parse_text uni_letter uni_digit uni_space gen_grammar o
+      (render uni_letter uni_digit uni_space L1 (print_any gen_grammar fmt_int fmt_float c t)) = Some (ROk t1) /\
+    source_parse_text uni_letter uni_digit uni_space gen_grammar o
+      (render uni_letter uni_digit uni_space L2 (print_any gen_grammar fmt_int fmt_float c t)) = Some (ROk t2) /\
+    erase_loc t1 = erase_loc t2 /\ erase_loc t1 = erase_loc t.
+Proof. exact src_whitespace_irrelevant. Qed.
+
+Theorem C11_source_redundant_parentheses_text : forall (uni_letter uni_digit uni_space : Z -> bool) (o : oracles)
+    (fmt_int : Z -> string) (fmt_float : PrimFloat.float -> string) (c1 c2 : poracle) (t : expr) (L1 L2 : layout),
+  printable gen_grammar fmt_int fmt_float o c1 t -> printable gen_grammar fmt_int fmt_float o c2 t ->
+  tree_textable uni_letter uni_digit uni_space fmt_int fmt_float t = true ->
+  white L1 (print_any gen_grammar fmt_int fmt_float c1 t) = true ->
+  white L2 (print_any gen_grammar fmt_int fmt_float c2 t) = true ->
+  exists t1 t2,
+    source_parse_text uni_letter uni_digit uni_space gen_grammar o
+      (render uni_letter uni_digit uni_space L1 (print_any gen_grammar fmt_int fmt_float c1 t)) = Some (ROk t1) /\
+    source_parse_text uni_letter uni_digit uni_space gen_grammar o
+      (render uni_letter uni_digit uni_space L2 (print_any gen_grammar fmt_int fmt_float c2 t)) = Some (ROk t2) /\
+    erase_loc t1 = erase_loc t2 /\ erase_loc t1 = erase_loc t.
+Proof. exact src_redundant_parentheses_text. Qed.
+
+(* the finding C11-notin-spacing stated of the regenerated front end: full statement refuted, carved statement beside it *)
+Definition C11_source_text_full_statement : Prop := src_text_full_statement.
+Theorem C11_source_text_full_statement_refuted : ~ C11_source_text_full_statement.
+Proof. exact src_text_full_statement_refuted. Qed.
+
+Theorem C11_source_text_partial : forall (uni_letter uni_digit uni_space : Z -> bool) (o : oracles)
+    (fmt_int : Z -> string) (fmt_float : PrimFloat.float -> string) (c : poracle) (t : expr) (L : layout),
+  let toks := print_any gen_grammar fmt_int fmt_float c t in
+  printable gen_grammar fmt_int fmt_float o c t ->
+  tree_textable uni_letter uni_digit uni_space fmt_int fmt_float t = true ->
+  gaps_ok L 0 toks = true -> notin_spaced L 0 toks = true ->
+  exists t', source_parse_text uni_letter uni_digit uni_space gen_grammar o (render uni_letter uni_digit uni_space L toks) = Some (ROk t') /\
+             erase_loc t' = erase_loc t.
+Proof. exact src_text_partial. Qed.
+
+(* 10c. SOUNDNESS of the regenerated parser against the reference grammar (second sentence of the property) *)
+Theorem C11_source_parse_sound : forall (o : oracles) (fmt_int : Z -> string) (fmt_float : PrimFloat.float -> string) (ts : list token) (t : expr),
+  sound_scope gen_grammar o fmt_int fmt_float ts = true -> gen_parse parser_program gen_grammar o ts = Some (ROk t) ->
+  exists c, printable gen_grammar fmt_int fmt_float o c t /\
+            normalize gen_grammar o fmt_int fmt_float ts = print_any gen_grammar fmt_int fmt_float c t.
+Proof. exact src_parse_sound. Qed.
+
+Theorem C11_source_unique_tree : forall (o : oracles) (fmt_int : Z -> string) (fmt_float : PrimFloat.float -> string) (ts : list token) (t1 t2 : expr),
+  sound_scope gen_grammar o fmt_int fmt_float ts = true -> gen_parse parser_program gen_grammar o ts = Some (ROk t1) ->
+  ref_parses gen_grammar o fmt_int fmt_float ts t2 -> t1 = t2.
+Proof. exact src_unique_tree. Qed.
+
+Theorem C11_source_rejects_iff : forall (o : oracles) (fmt_int : Z -> string) (fmt_float : PrimFloat.float -> string) (ts : list token),
+  sound_scope gen_grammar o fmt_int fmt_float ts = true -> plain gen_grammar o fmt_int fmt_float ts = true ->
+  ((exists e, gen_parse parser_program gen_grammar o ts = Some (RErr e)) <-> ~ (exists t, ref_parses gen_grammar o fmt_int fmt_float ts t)).
+Proof. exact src_rejects_iff. Qed.
+
+Theorem C11_source_not_generated_rejected : forall (o : oracles) (fmt_int : Z -> string) (fmt_float : PrimFloat.float -> string) (ts : list token),
+  sound_scope gen_grammar o fmt_int fmt_float ts = true ->
+  ~ (exists t, ref_parses gen_grammar o fmt_int fmt_float ts t) -> exists e, gen_parse parser_program gen_grammar o ts = Some (RErr e).
+Proof. exact src_not_generated_rejected. Qed.
+
+Theorem C11_source_generated_accepted : forall (o : oracles) (fmt_int : Z -> string) (fmt_float : PrimFloat.float -> string) (ts : list token) (t : expr),
+  plain gen_grammar o fmt_int fmt_float ts = true -> ref_parses gen_grammar o fmt_int fmt_float ts t ->
+  exists t', gen_parse parser_program gen_grammar o ts = Some (ROk t') /\ erase_loc t' = erase_loc t.
+Proof. exact src_generated_accepted. Qed.
+
+Definition C11_source_sound_full_statement : Prop := src_sound_full_statement.
+Theorem C11_source_sound_full_statement_refuted : ~ C11_source_sound_full_statement.
+Proof. exact src_sound_full_statement_refuted. Qed.
+
+(* 10d. front to back on ANY text: if the regenerated lexer followed by the regenerated parser accepts txt with tree t, then the
+   regenerated lexer produced a token list ts and, inside the carve-out, normalize ts IS the printing of t: equality of token
+   lists includes the locations, so every node of t is located at the position the regenerated lexer gave its anchor token *)
+Theorem C11_source_text_parse_sound : forall (uni_letter uni_digit uni_space : Z -> bool) (o : oracles)
+    (fmt_int : Z -> string) (fmt_float : PrimFloat.float -> string) (txt : list Z) (t : expr),
+  source_parse_text uni_letter uni_digit uni_space gen_grammar o txt = Some (ROk t) ->
+  exists ts, gen_lex uni_letter uni_digit uni_space lexer_funs txt = GenOk ts /\
+    (sound_scope gen_grammar o fmt_int fmt_float ts = true ->
+     exists c, printable gen_grammar fmt_int fmt_float o c t /\
+               normalize gen_grammar o fmt_int fmt_float ts = print_any gen_grammar fmt_int fmt_float c t).
+Proof. exact src_text_parse_sound. Qed.
+
+Definition C11_source_capstones :=
+  (C11_source_roundtrip, C11_source_redundant_parentheses, C11_source_roundtrip_reference_printer, C11_source_any_parentheses,
+   C11_source_parse_total, C11_source_text_roundtrip, C11_source_text_roundtrip_good_layout, C11_source_text_tokens,
+   C11_source_text_any_spelling, C11_source_text_locations, C11_source_whitespace_irrelevant, C11_source_redundant_parentheses_text,
+   C11_source_text_full_statement_refuted, C11_source_text_partial, C11_source_parse_sound, C11_source_unique_tree,
+   C11_source_rejects_iff, C11_source_not_generated_rejected, C11_source_generated_accepted,
+   C11_source_sound_full_statement_refuted, C11_source_text_parse_sound).
+Print Assumptions C11_source_capstones.
+
+(* ---- non-vacuity.  All hypotheses of the text capstones at once, on the tree / layouts / parentheses of section 5
+   (unary, binary, conditional, calls, builtin with closure, array, map, a string with escapes; tabs, LF, CR LF): applied *)
+Example C11_source_text_example_applied :
+  exists t1 t2,
+    source_parse_text nf nf nf gen_grammar C11.ex_oracles (render nf nf nf tx_layout2 (print_min gen_grammar dec ex_fmt_float tx_tree)) = Some (ROk t1) /\
+    source_parse_text nf nf nf gen_grammar C11.ex_oracles (render nf nf nf tx_layout1 (print_any gen_grammar dec ex_fmt_float tx_parens tx_tree)) = Some (ROk t2) /\
+    erase_loc t1 = erase_loc t2 /\ erase_loc t1 = erase_loc tx_tree.
+Proof.
+  exact (C11_source_redundant_parentheses_text nf nf nf C11.ex_oracles dec ex_fmt_float no_extra tx_parens tx_tree tx_layout2 tx_layout1
+           (proj1 C11_text_nonvacuous_printable) (proj2 C11_text_nonvacuous_printable) C11_text_nonvacuous_textable
+           (proj1 (proj2 C11_text_nonvacuous_layouts)) (proj2 (proj2 C11_text_nonvacuous_layouts))).
+Qed.
+
+(* ... and RECOMPUTED through the interpreters of the regenerated lexer and parser (vm_compute over gen/GenLexer.v and
+   gen/GenParser.v): the labelled tree of C11_text_locations_nonvacuous comes back with every label replaced by the
+   position the regenerated lexer gave to the token that carries it *)
+Example C11_source_text_locations_computed :
+  let toks := print_min gen_grammar dec ex_fmt_float lab_tree in
+  let txt := render nf nf nf lab_layout toks in
+  source_parse_text nf nf nf gen_grammar C11.ex_oracles txt = Some (ROk (map_loc (label_pos toks (source_text_positions nf nf nf txt)) lab_tree)) /\
+  label_pos toks (source_text_positions nf nf nf txt) (9, 1) = (1, 4) /\
+  label_pos toks (source_text_positions nf nf nf txt) (9, 12) = (10, 3).
+Proof. vm_compute. repeat split. Qed.
+
+(* soundness applied: token list with nested parentheses / conditional / builtin / closure, and the text with every
+   alternative spelling, through the regenerated lexer and parser *)
+Example C11_source_sound_example_applied :
+  gen_parse parser_program gen_grammar C11.ex_oracles snd_ts = Some (ROk snd_tree) /\
+  exists c, printable gen_grammar dec ex_fmt_float C11.ex_oracles c snd_tree /\
+            normalize gen_grammar C11.ex_oracles dec ex_fmt_float snd_ts = print_any gen_grammar dec ex_fmt_float c snd_tree.
+Proof.
+  assert (E : gen_parse parser_program gen_grammar C11.ex_oracles snd_ts = Some (ROk snd_tree)) by (vm_compute; reflexivity).
+  exact (conj E (C11_source_parse_sound C11.ex_oracles dec ex_fmt_float snd_ts snd_tree (proj1 C11_sound_nonvacuous) E)).
+Qed.
+
+Example C11_source_sound_lexed_text :
+  match gen_lex nf nf nf lexer_funs (rs "filter(xs, {.a?.b.c > 0x10}) ? {k: 1, (z): [1, ((2)),]} : f(1, (g.not)) ") with
+  | GenOk toks =>
+      sound_scope gen_grammar C11.ex_oracles dec ex_fmt_float toks = true /\
+      match gen_parse parser_program gen_grammar C11.ex_oracles toks with
+      | Some (ROk t) => print_any gen_grammar dec ex_fmt_float (oracle_of_tokens gen_grammar C11.ex_oracles dec ex_fmt_float toks) t
+                        = normalize gen_grammar C11.ex_oracles dec ex_fmt_float toks
+      | _ => False
+      end
+  | _ => False
+  end.
+Proof. vm_compute. split; reflexivity. Qed.
